@@ -5,7 +5,7 @@ cd "$(dirname "$0")/.."
 for d in seeded/*/; do
   id=$(basename $d); prop=${id%%-*}
   # the checks that meta.json records as detecting it (its own property's check unless the changed file belongs to another domain)
-  props=$(python3 -c "import json,sys;m=json.load(open('$d/meta.json'));l=m.get('detected_by_quick_checks') or ['$prop'];print(' '.join(([x for x in l if x=='$prop'] or l[:1])))")
+  props=$(python3 -c "import json,sys;m=json.load(open('$d/meta.json'));import re;l=[x.split()[0] for x in (m.get('detected_by_quick_checks') or ['$prop']) if re.match(r'^C\d\d\b',x)] or ['$prop'];print(' '.join(([x for x in l if x=='$prop'] or l[:1])))")
   r=$(tools/try_seeded_scratch.sh $d/patch.diff $props 2>&1 | grep -E "^C[0-9]+ exit=" | tail -1)
   case "$r" in *"exit=1"*) echo "DETECTED $id by ${r%% *} ($(echo $r | cut -d' ' -f3 | cut -c1-80))";; *) echo "MISSED   $id ($r)";; esac
 done
